@@ -419,6 +419,11 @@ func runCase(run *vf.Run, raw json.RawMessage, dir string) *vf.Result {
 	if w != nil {
 		defer w.Close()
 	}
+	if oe, ok := err.(*OracleError); ok {
+		res.Evals++
+		res.Violate(oe.Key, "%s", oe.Msg)
+		return res
+	}
 	if err != nil && err != ErrVictimGone {
 		res.HarnessErr = fmt.Sprintf("scenario step %d: %v", at, err)
 		return res
@@ -480,7 +485,7 @@ func runCase(run *vf.Run, raw json.RawMessage, dir string) *vf.Result {
 		return res
 	}
 	// (c) restart without any manual step, more writes, next ack restores exactly
-	restartAndAck(w, res)
+	restartAndAck(w, res, sc, inflight)
 
 	res.Sample = map[string]any{"scenario": sc.Name, "cfg": cfg.Name, "n": s.N, "killed_before": kd, "during": inflight, "acks_before_kill": len(w.Acks)}
 	return res
@@ -625,8 +630,10 @@ func checkAckRestorable(w *World, res *vf.Result, a *Ack) {
 	}
 }
 
-// restartAndAck is check (c).
-func restartAndAck(w *World, res *vf.Result) {
+// restartAndAck is check (c), followed by the "needs no repair" half for restores: the
+// restore (or follow-mode restore) that was running when the process was killed is issued
+// again, to the same output path, without any clean-up by hand.
+func restartAndAck(w *World, res *vf.Result, sc *Scenario, inflight string) {
 	p, alive, err := StartVictim(w.VC, Launch{Mode: Plain})
 	if err != nil || !alive {
 		res.Evals++
@@ -688,5 +695,117 @@ func restartAndAck(w *World, res *vf.Result) {
 			return
 		}
 		res.Violate("restore-after-restart-differs", "after restart and an acknowledged sync, Restore() differs from the source: %v", err)
+		return
+	}
+	ackTXID := uint64(0)
+	if f := strings.Fields(reply); len(f) >= 3 {
+		ackTXID, _ = strconv.ParseUint(f[2], 10, 64)
+	}
+	retryKilledRestore(w, res, p, sc, inflight, src, ackTXID)
+}
+
+// retryKilledRestore re-issues the restore that the kill interrupted.
+func retryKilledRestore(w *World, res *vf.Result, p *Proc, sc *Scenario, inflight string, src []byte, ackTXID uint64) {
+	do := func(cmd string) (string, bool) {
+		reply, alive, err := p.Do(cmd)
+		if err != nil {
+			res.HarnessErr = err.Error()
+			return "", false
+		}
+		if !alive {
+			res.Evals++
+			res.Violate("restarted-process-died", "the restarted litestream process died during %q", cmd)
+			return "", false
+		}
+		res.Logf("restart: %s -> %s", cmd, reply)
+		return reply, true
+	}
+	// follow mode (S7): the follower ran for the whole traced phase
+	follows := false
+	for _, st := range sc.Steps {
+		if st.Op == "v" && strings.HasPrefix(st.Arg, "follow-start ") {
+			follows = true
+			name := strings.Fields(st.Arg)[1]
+			res.Evals++
+			res.Count("follow_retried_after_kill", 1)
+			for _, cmd := range []string{"follow-start " + name, fmt.Sprintf("follow-wait %d", ackTXID), "follow-stop"} {
+				reply, ok := do(cmd)
+				if !ok {
+					return
+				}
+				if !strings.HasPrefix(reply, "ok ") {
+					res.Violate("follow-retry-failed-after-kill", "after the kill and a restart, starting follow-mode restore to the same output path %s again does not work without manual clean-up: %q answered %s", name, cmd, reply)
+					return
+				}
+			}
+			got, err := os.ReadFile(filepath.Join(w.Root, name))
+			if err != nil {
+				res.Violate("follow-retry-failed-after-kill", "after the re-started follower reported TXID %d the output %s cannot be read: %v", ackTXID, name, err)
+				return
+			}
+			// a follow-mode output keeps the file-format version bytes (header 18..19) of the pages
+			// it applies in place; they are masked for follower images (DESIGN §2, CompareFollower)
+			a, b := append([]byte{}, src...), append([]byte{}, got...)
+			if len(a) >= 20 && len(b) >= 20 {
+				a[18], a[19], b[18], b[19] = 0, 0, 0, 0
+			}
+			if err := oracle.CompareMasked(a, b, w.Work); err != nil {
+				if strings.HasPrefix(err.Error(), "harness:") {
+					res.HarnessErr = err.Error()
+					return
+				}
+				res.Violate("follow-retry-differs", "after the kill, a restart and the re-started follower reporting TXID %d, %s differs from the source: %v", ackTXID, name, err)
+			}
+			return
+		}
+	}
+	_ = follows
+	arg, ok := strings.CutPrefix(inflight, "v ")
+	if !ok || !strings.HasPrefix(arg, "restore ") {
+		return
+	}
+	line, err := w.subst(arg)
+	if err != nil {
+		res.HarnessErr = err.Error()
+		return
+	}
+	f := strings.Fields(line)
+	name := f[1]
+	if _, err := os.Stat(filepath.Join(w.Root, name)); err == nil {
+		// the kill came after the output was published (checked complete above): a second
+		// restore to an existing path is refused by design
+		res.Count("restore_retry_skipped_output_already_published", 1)
+		return
+	}
+	res.Evals++
+	res.Count("restore_retried_after_kill", 1)
+	reply, alive := do(line)
+	if !alive {
+		return
+	}
+	if !strings.HasPrefix(reply, "ok ") {
+		res.Violate("restore-retry-failed-after-kill", "the restore that was killed (%q) cannot be repeated to the same output path after a restart without cleaning up by hand: %s", line, reply)
+		return
+	}
+	want, wantTXID := src, ackTXID
+	if kv(f[2:], "txid", "") != "" {
+		exp := w.OutputExpect[name]
+		if exp == nil {
+			res.HarnessErr = "no expectation recorded for " + name
+			return
+		}
+		want, wantTXID = exp.Img, exp.TXID
+	}
+	got, err := os.ReadFile(filepath.Join(w.Root, name))
+	if err != nil {
+		res.Violate("restore-retry-failed-after-kill", "repeated restore %q reported success but %s cannot be read: %v", line, name, err)
+		return
+	}
+	if err := oracle.CompareMasked(want, got, w.Work); err != nil {
+		if strings.HasPrefix(err.Error(), "harness:") {
+			res.HarnessErr = err.Error()
+			return
+		}
+		res.Violate("restore-retry-differs", "repeated restore %q succeeded but %s is not the database of TXID %d: %v", line, name, wantTXID, err)
 	}
 }
